@@ -66,7 +66,8 @@ CtorParams ==
   \cup { [kind |-> n, seed |-> 1, n |-> 0, variant |-> v] : n \in {"end", "hend", "efi_bs"}, v \in {"new", "default"} }
   \cup { [kind |-> "module", seed |-> 1, n |-> 3, variant |-> v] : v \in {"end=start", "end<start"} }
   \cup { [kind |-> "efi_mmap", seed |-> 1, n |-> len, variant |-> v] : v \in {"descs", "size0"}, len \in 0..2 }
-  \cup { [kind |-> n, seed |-> 1, n |-> len, variant |-> "nul"] : n \in {"cmdline", "bootloader", "module"}, len \in 0..3 }
+  \cup { [kind |-> n, seed |-> 1, n |-> len, variant |-> v] : n \in {"cmdline", "bootloader", "module"}, len \in 0..3,
+                                                             v \in {"nul", "nul2", "nul3", "inner"} }
 CtorArgs(p) ==
   CASE p.variant = "sized" -> IF p.kind \in SizedHdrKinds THEN SizedArgs(p.kind, p.seed) @@ HFlags(p.seed) ELSE SizedArgs(p.kind, p.seed)
     [] p.variant = "dst" -> DstArgs(p.kind, p.seed, p.n)
@@ -76,9 +77,12 @@ CtorArgs(p) ==
     [] p.variant = "descs" -> [descs |-> [i \in 1..p.n |-> [ty |-> Mark(i, 4), phys_start |-> Mark(i + 1, 8), virt_start |-> Mark(i + 2, 8),
                                                            page_count |-> Mark(i + 3, 8), att |-> Mark(i + 4, 8)]]]
     [] p.variant = "size0" -> [desc_size |-> U32Bytes(0), desc_version |-> U32Bytes(1), content |-> Content(1, p.n)]
-    [] p.variant = "nul" ->      \* text that already ends with NUL is stored as it is
+    [] p.variant \in {"nul", "nul2", "nul3", "inner"} ->      \* text that already ends with NUL is stored as it is
          (IF p.kind = "module" THEN [start_address |-> <<1, 0, 0, 0>>, end_address |-> <<2, 0, 0, 0>>] ELSE <<>>)
-         @@ [text |-> Text(1, p.n) \o <<0>>]
+         @@ [text |-> CASE p.variant = "nul" -> Text(1, p.n) \o <<0>>
+                        [] p.variant = "nul2" -> Text(1, p.n) \o <<0, 0>>
+                        [] p.variant = "nul3" -> Text(1, p.n) \o <<0, 0, 0>>
+                        [] OTHER -> Text(1, p.n) \o <<0>> \o Text(2, p.n)]
 CtorCase(p) ==
   [mem |-> <<>>, al |-> 0,
    calls |-> <<CtorCall(p.kind, CtorArgs(p), p.variant = "dst")>>,
